@@ -28,5 +28,5 @@ SimNext ==
           \/ Serve(c) /\ (IF last'.c # 0 THEN Rec1("read", c) ELSE prog' = prog)
      \/ Bump /\ prog' = Append(prog, Op("bump", 0, <<>>, ""))
 SimSpec == SimInit /\ [][SimNext]_<<vars, prog>>
-SimEmit == SimDone => PrintT(<<"REPLAY", ToJson([entries |-> entries, ops |-> prog])>>)
+SimEmit == SimDone => PrintT(<<"REPLAY", ToJson([hist |-> hist, ops |-> prog])>>)
 =============================================================================
